@@ -93,8 +93,10 @@ class Report:
 
     # ----- output -----
     def finish(self, seed=0, write=True):
-        self.check_floors()
         known = load_known()
+        unexplained = [v for v in self.violations if not (known.get(v["key"], {}).get("status") == "known" and known[v["key"]].get("property") == self.prop)]
+        if not unexplained:
+            self.check_floors()  # a failing rule already explains low counts elsewhere
         real = []
         known_hits = []
         for v in self.violations:
